@@ -153,7 +153,10 @@ func runFlow(f *flow, in []byte, replace bool) (captured []byte) {
 
 // kpasswdReply answers a change-password request the way a kpasswd server would (RFC 3244): AP-REP + KRB-PRIV
 // carrying result code 0, protected with the subkey of the request's authenticator.
-func kpasswdReply(w *cworld.World, req []byte) []byte {
+func kpasswdReply(w *cworld.World, req []byte) []byte { return KpasswdReply(w, req) }
+
+// KpasswdReply is exported for C20.
+func KpasswdReply(w *cworld.World, req []byte) []byte {
 	fail := []byte{0, 6, 0, 1, 0, 0}
 	if len(req) < 6 {
 		return fail
